@@ -197,6 +197,54 @@ def shard(task):
                 continue
             run(img, base["password"], f"{base['name']} {label}", {"input": "token", "field": label.split(":")[0].split("[")[0]},
                 {"kind": "tokens", "base": bidx, "label": label, "maxlen": maxlen})
+    elif kind == "bombs":
+        # a packed stream that expands to N bytes while the folder DECLARES 10: memory must stay proportional to input + declared output
+        import tracemalloc
+
+        from mc.ref import ref7z as _ref
+
+        N = 32 << 20
+        for codec in arg:
+            members = [{"name": "bomb.bin", "kind": "file", "data": bytes(N), "mtime": 132223104000000000, "attr": 0x20}]
+            spec = ("bomb-" + codec, members, {"folders": [[0]], "chains": [[(codec, {})]], "crc": "none"}, None)
+            try:
+                base = mutations.build(spec)
+            except Exception as ex:
+                sh.count("bomb_not_buildable")
+                sh.note("bomb_build_errors", f"{codec}: {type(ex).__name__}")
+                continue
+            toks = [list(t) for t in base["tokens"]]
+            hit = 0
+            for t in toks:
+                if t[0] == "num" and t[2].startswith("Main.Folder[0].unpacksize"):
+                    t[1] = 10
+                    hit += 1
+            if not hit:
+                raise RuntimeError("bomb: no unpack size token")
+            img = mutations.seal(base, toks)
+            for op in ("testzip", "extractall"):
+                import py7zr
+
+                tracemalloc.start()
+                tracemalloc.reset_peak()
+                b0 = tracemalloc.get_traced_memory()[0]
+                outcome = "returned"
+                try:
+                    with py7zr.SevenZipFile(io.BytesIO(img)) as z:
+                        do(z, op)
+                except MemoryError:
+                    outcome = "MemoryError"
+                except Exception as ex:
+                    outcome = type(ex).__name__
+                peak = tracemalloc.get_traced_memory()[1] - b0
+                tracemalloc.stop()
+                allowed = 64 * (len(img) + 10) + (16 << 20)
+                sh.case(("bomb", codec, op), nontrivial=True, sample={"bomb": codec, "archive_bytes": len(img), "expands_to": N, "declared": 10, "call": op, "peak_bytes": peak} if len(sh.samples) < 2 else None)
+                sh.count("calls")
+                if peak > allowed or outcome == "MemoryError":
+                    sh.violation({"symptom": "memory-beyond-declared-output", "input": "bomb", "codec": codec},
+                                 f"{codec} stream of {len(img)} bytes expanding to {N} bytes in a folder that declares 10: {op} {outcome} with a peak of {peak >> 20} MiB (allowed 64 x (input + declared) + 16 MiB = {allowed >> 20} MiB)",
+                                 {"kind": "bomb", "codec": codec, "op": op, "tier": tier, "maxlen": maxlen})
     elif kind == "sighdr":
         # the 32-byte signature header: NextHeaderOffset / NextHeaderSize / NextHeaderCRC set to the boundary values, StartHeaderCRC
         # re-sealed; each input both as a stream and as a real file opened by name
@@ -245,6 +293,9 @@ def replay(case):
         for label, toks, outer in mutations.mutants(base, "all"):
             if label == case["label"]:
                 return probe(mutations.seal(base, toks, outer), base["password"], maxlen, lambda s: None, label)[0]
+    if case["kind"] == "bomb":
+        r = shard(("bombs", [case["codec"]], 1, case.get("tier", "quick")))
+        return [(v["sig"]["symptom"], v["what"]) for v in r["violations"]]
     if case["kind"] == "sighdr":
         import struct
         import zlib
@@ -290,6 +341,7 @@ def main(tier="quick", seed=0, only=None):
         step = 150
         tasks += [("tokens", (i, lo, min(lo + step, n)), maxlen, tier) for lo in range(0, n, step)]
     tasks.append(("password", None, maxlen, tier))
+    tasks += [("bombs", [c], 1, tier) for c in ("LZMA2", "LZMA", "BZIP2", "DEFLATE", "DEFLATE64", "ZSTD", "BROTLI", "PPMD")]
     tasks += [("sighdr", [i], 1, tier) for i in range(min(len(bases), 4 if tier == "quick" else 12))]
     import random
 
@@ -337,7 +389,7 @@ def main(tier="quick", seed=0, only=None):
             "tokens set to {0,1,2^7k-1,2^7k,2^32-1,2^32,2^63-1,2^63,2^64-1}, every property id replaced by every id 0..26 and FF, every bit "
             "of every flag byte, bit vectors, CRCs, FILETIMEs, names, method ids, AES properties; for packed headers the same single-token mutations of the outer streams info that describes the packed header; two deviations: a count NUMBER set to 2^32 / 2^63-1 together with one property id replaced by End (thorough: by every id)), each section dropped / duplicated / "
             "swapped with its successor, FilesInfo property sizes left stale and re-fitted; all outer CRCs re-sealed (raw, LZMA- and "
-            f"AES-encoded headers); missing and 5 wrong passwords; the signature header's NextHeaderOffset / Size / CRC set to the boundary values with StartHeaderCRC re-sealed, each as a stream and as a real file opened by name. On every input that opens: every call sequence of length <= {maxlen} (byte-level damage: <= 2) over "
+            f"AES-encoded headers); missing and 5 wrong passwords; decompression bombs: for 8 codecs a packed stream expanding to 32 MiB in a folder that declares 10 bytes (peak Python-level memory, by tracemalloc, must stay within 64 x (input + declared output) + 16 MiB); the signature header's NextHeaderOffset / Size / CRC set to the boundary values with StartHeaderCRC re-sealed, each as a stream and as a real file opened by name. On every input that opens: every call sequence of length <= {maxlen} (byte-level damage: <= 2) over "
             f"{OPS} on one session (incl. extract twice without reset). Oracle: each call returns or raises an Exception within 8 s + 50 us/byte, "
             "no MemoryError with RLIMIT_AS = baseline + 1 GiB, worker process alive. Non-trivial = the input got past open()."
         ),
